@@ -58,6 +58,11 @@ CHECKS = {
          "Pedersen and Rabin VSS, n=3 (thorough: 3 and 4), every valid t, observers verifier 0 (thorough: also n-1) and the dealer: all histories up to depth n+2 (thorough n+4) over ~30 events: 13 deal variants produced by editing the dealer's plaintext deal and encrypting through the real DH/HKDF/AES-GCM/Schnorr path (share+1, wrong index, replaced commitment, T in {0,1,n+1}, replaced SessionID, absent share value, wrong recipient, forged dealer, flipped signature, replayed session), authentic approvals/complaints of real verifiers, bad-signature / other-session / out-of-range / forged-own responses, correct and incorrect justifications (also for the observer's own complaint), timeout. Oracle after every transition: S2 (approval only of consistent deals, honest deal approved), S3 (certified => >= t distinct approved-or-justified, no processed invalid justification, valid threshold), liveness (all approved/justified => certified), Deal()!=nil => certified. S1 on honest runs n=3..5, all t: everyone approves, certified everywhere, every t-subset of Deal()s reconstructs the dealer's secret; published commitment = secret*G.",
          "Trusted: the reference model (written from the statement), seeded message generation through the real code. Merged states may hide implementation state not exposed by the API.",
          "DESIGN.md §4 C10"),
+ "C19": ("model_checking",
+         "stateless exploration of all XOF operation sequences to depth 3-4 on up to two live objects against a single-shot reference; exhaustive enumeration of moduli, bit lengths and first-draw byte strings for random.Int/Bits; all reader-set compositions for randstream",
+         "blake2xb, blake2xs, keccak: every sequence of depth <= 3 (depth 4 on a reduced size alphabet; thorough: 4 on the full one) over Write/Read/XORKeyStream/Reseed/Clone/Reset with chunk sizes {0,1,64,65,128,129,137,600} and 8 seed lengths (every seed length 0..300 at depth 1); every output and a final probe of every live object compared with fresh New(seed)+absorb+one Read; Reseed modelled as a fresh XOF keyed by the next 128 bytes, Reset as the seeded initial state. random.Bits for every bit length 0..1030; random.Int for every modulus 1..1024 and boundary moduli of every bit length 1..521 under streams incl. modulus-valued prefixes (range, determined by drawn bytes); for 18 moduli <= 65535 ALL first-draw byte strings enumerated: outputs exactly uniform. randstream: all 39 reader sets over {good, short, failing} up to size 3.",
+         "Trusted: the XOF implementation used single-shot as its own reference (the property is about chunking/cloning/reseeding/reset).",
+         "DESIGN.md §4 C19"),
 }
 
 NOT_YET = "check not built yet in this round (planned: see DESIGN.md §4)"
